@@ -1636,5 +1636,6 @@ class MDC(Packet):
 
     def parse(self, packet):
         super(MDC, self).parse(packet)
-        self.mdc = binascii.hexlify(packet[:20])
-        del packet[:20]
+        # a digest of any other length than 20 octets never compares equal; the packet is consumed as framed
+        self.mdc = binascii.hexlify(packet[:self.header.length])
+        del packet[:self.header.length]
